@@ -275,6 +275,9 @@ func checkC17(R *Run) {
 				if okT, note := P.tableDrivenExpiry(h, ci, until, bd); okT {
 					good, tableNote = true, note
 					nAdd++ // one table-driven site stands for the temporary and the permanent ban
+				} else if okT, note := P.tableFuncExpiry(h, ci, until, bd); okT {
+					good, tableNote = true, note
+					nAdd++
 				}
 			}
 			if tableNote != "" {
@@ -397,8 +400,8 @@ func checkC17(R *Run) {
 		if marshal != nil {
 			dataOK := false
 			for _, ci := range callsIn(add) {
-				if calleeName(ci.Common()) == "os.WriteFile" {
-					if e, ok := ci.Common().Args[1].(*ssa.Extract); ok && e.Tuple == ssa.Value(marshal) {
+				if n := calleeName(ci.Common()); n == "os.WriteFile" || n == "(*os.File).Write" {
+					if e, ok := stripConv(resolveLocal(ci.Common().Args[1])).(*ssa.Extract); ok && e.Tuple == ssa.Value(marshal) {
 						dataOK = true
 					}
 				}
@@ -757,7 +760,13 @@ func (P *Prog) globalTable(g *ssa.Global) (map[int64]map[string]ssa.Value, bool)
 			name, _ := fieldOf(fa)
 			for _, fr := range *fa.Referrers() {
 				if st, isSt := fr.(*ssa.Store); isSt {
-					if _, isConst := st.Val.(*ssa.Const); !isConst {
+					switch fv := st.Val.(type) {
+					case *ssa.Const, *ssa.Function:
+					case *ssa.MakeClosure:
+						if len(fv.Bindings) != 0 {
+							okAll = false
+						}
+					default:
 						okAll = false
 					}
 					fields[name[strings.LastIndex(name, ".")+1:]] = st.Val
@@ -873,6 +882,107 @@ func (P *Prog) tableDrivenExpiry(h *ssa.Function, add ssa.CallInstruction, until
 	t2, has2 := val(2)
 	if has1 && has2 && t1 && !t2 {
 		return true, fmt.Sprintf("table %s: option 1 → %s=true → now+BanDuration, option 2 → %s=false → no expiry; other options not in the table", g.Name(), flag, flag)
+	}
+	return false, ""
+}
+
+// tableFuncExpiry: `if e, ok := table[optionByte]; ok { Add(ip, e.until()) }` where the constant table holds, for
+// option 1, a function returning a pointer to time.Now().Add(BanDuration) and, for option 2, one returning nil.
+func (P *Prog) tableFuncExpiry(h *ssa.Function, add ssa.CallInstruction, until ssa.Value, bd int64) (bool, string) {
+	call, ok := until.(*ssa.Call)
+	if !ok || call.Call.IsInvoke() || len(call.Call.Args) != 0 {
+		return false, ""
+	}
+	var fld ssa.Value
+	var entry ssa.Value
+	switch c := call.Call.Value.(type) {
+	case *ssa.Field:
+		fld, entry = c, c.X
+	case *ssa.UnOp:
+		if fa, isFA := c.X.(*ssa.FieldAddr); isFA && c.Op == token.MUL {
+			if a, isA := fa.X.(*ssa.Alloc); isA {
+				if val, single := singleStore(a); single {
+					fld, entry = fa, val
+				}
+			}
+		}
+	}
+	if fld == nil {
+		return false, ""
+	}
+	ex, ok := entry.(*ssa.Extract)
+	if !ok || ex.Index != 0 {
+		return false, ""
+	}
+	lk, ok := ex.Tuple.(*ssa.Lookup)
+	if !ok || !lk.CommaOk || !isOptionByte(P, stripConv(lk.Index)) {
+		return false, ""
+	}
+	ld, ok := lk.X.(*ssa.UnOp)
+	if !ok {
+		return false, ""
+	}
+	g, ok := ld.X.(*ssa.Global)
+	if !ok {
+		return false, ""
+	}
+	guarded := false
+	factEdges(h, func(e Edge, f Fact) {
+		if f.Kind == "truth" && f.Holds {
+			if x, isX := f.V.(*ssa.Extract); isX && x.Tuple == ssa.Value(lk) && x.Index == 1 && edgeDominates(h, e, add.Block()) {
+				guarded = true
+			}
+		}
+	})
+	if !guarded {
+		return false, ""
+	}
+	tbl, ok := P.globalTable(g)
+	if !ok || len(tbl) != 2 {
+		return false, ""
+	}
+	fname0, _ := fieldOf(fld)
+	name := fname0[strings.LastIndex(fname0, ".")+1:]
+	kind := func(k int64) string {
+		e, has := tbl[k]
+		if !has {
+			return ""
+		}
+		var fn *ssa.Function
+		switch v := e[name].(type) {
+		case *ssa.Function:
+			fn = v
+		case *ssa.MakeClosure:
+			if len(v.Bindings) == 0 {
+				fn, _ = v.Fn.(*ssa.Function)
+			}
+		}
+		if fn == nil || len(fn.Params) != 0 {
+			return ""
+		}
+		rets := returnsOf(fn)
+		if len(rets) != 1 || len(rets[0].Results) != 1 {
+			return ""
+		}
+		r := rets[0].Results[0]
+		if isNilConst(r) {
+			return "nil"
+		}
+		if a, isA := r.(*ssa.Alloc); isA {
+			if val, single := singleStore(a); single {
+				if c := callValue(val); c != nil && calleeName(&c.Call) == "(time.Time).Add" && len(c.Call.Args) == 2 {
+					now := callValue(c.Call.Args[0])
+					d, isC := constInt(c.Call.Args[1])
+					if now != nil && calleeName(&now.Call) == "time.Now" && isC && d == bd {
+						return "temp"
+					}
+				}
+			}
+		}
+		return ""
+	}
+	if kind(1) == "temp" && kind(2) == "nil" {
+		return true, fmt.Sprintf("table %s: option 1 → %s() = now+BanDuration, option 2 → %s() = nil; other options not in the table", g.Name(), name, name)
 	}
 	return false, ""
 }
